@@ -3,7 +3,9 @@ package main
 import (
 	"go/ast"
 	"os"
+	"os/exec"
 	"path/filepath"
+	"regexp"
 	"strings"
 
 	"verif/harness/internal/fact"
@@ -20,10 +22,50 @@ func pinnedDir() string {
 	return filepath.Join(root, "harness", "pinned")
 }
 
+// translated functions of golang.org/x/tools/txtar/archive.go (the REFERENCE definition of the format), callees first
+var xtxtarGoFuncs = []string{"isMarker", "fixNL", "findFileMarker", "Parse", "Format"}
+
+// xtoolsFile locates a source file of golang.org/x/tools in the version /repo's go.mod requires (the library
+// /repo's txtar.Format calls and whose Parse is the reference of property C03; this harness is built against
+// the same version through its `replace … => /repo`): `go list -m` run in /repo, else GOMODCACHE + the version
+// read from /repo/go.mod.  When neither works the (non-existent) path returned makes TranslateModule write the
+// pinned copy and report the anchor lost.
+func xtoolsFile(repo string, rel ...string) string {
+	env := append(os.Environ(), "GOFLAGS=-mod=mod", "GOPROXY=off", "GOSUMDB=off", "GOTOOLCHAIN=local")
+	cmd := exec.Command("go", "list", "-m", "-f", "{{.Dir}}", "golang.org/x/tools")
+	cmd.Dir, cmd.Env = repo, env
+	if out, err := cmd.Output(); err == nil {
+		if dir := strings.TrimSpace(string(out)); dir != "" {
+			if _, err := os.Stat(dir); err == nil {
+				return filepath.Join(append([]string{dir}, rel...)...)
+			}
+		}
+	}
+	ver := ""
+	if data, err := os.ReadFile(filepath.Join(repo, "go.mod")); err == nil {
+		if m := regexp.MustCompile(`(?m)^\s*(?:require\s+)?golang\.org/x/tools\s+(v\S+)`).FindSubmatch(data); m != nil {
+			ver = string(m[1])
+		}
+	}
+	cache := ""
+	if out, err := exec.Command("go", "env", "GOMODCACHE").Output(); err == nil {
+		cache = strings.TrimSpace(string(out))
+	}
+	if ver == "" || cache == "" {
+		return filepath.Join(append([]string{string(filepath.Separator) + "golang.org-x-tools-not-found"}, rel...)...)
+	}
+	return filepath.Join(append([]string{cache, "golang.org", "x", "tools@" + ver}, rel...)...)
+}
+
 func genTxtar(g *fact.Gen) {
 	const rel = "txtar/archive.go"
 	g.TranslateModule("TxtarGo", rel, txtarGoFuncs, "txtar",
 		[]string{"GIV.GoLib", "GIV.Model.Txtar", "GIV.Gen.Txtar"}, "GIV.Go.Txtar", filepath.Join(pinnedDir(), "TxtarGo.lean"))
+	// golang.org/x/tools/txtar (Format, and the reference Parse with its findFileMarker / isMarker / fixNL), translated
+	// from the LIBRARY SOURCE in the module cache, in the version /repo's go.mod requires; GIV.Lemmas.XTxtarGo proves the
+	// translation equal to the model's `format` and `refParseIdx` (hence `refParse`) for every archive / byte string
+	g.TranslateModule("XTxtarGo", xtoolsFile(g.Repo, "txtar", "archive.go"), xtxtarGoFuncs, "xtxtar",
+		[]string{"GIV.GoLib", "GIV.Model.Txtar"}, "GIV.Go.XTxtar", filepath.Join(pinnedDir(), "XTxtarGo.lean"))
 	g.EmitBytesVar(rel, "marker", "marker", "-- ")
 	g.EmitBytesVar(rel, "markerEnd", "markerEnd", " --")
 	g.EmitBytesVar(rel, "newlineMarker", "newlineMarker", "\n-- ")
